@@ -162,7 +162,9 @@ class CacheWarmer(Entity):
 
         # Create initial warming event
         return Event(
-            time=Instant.Epoch,  # Will be scheduled at current time
+            # Stamped with the current simulated time: warming started (or
+            # re-started) during a run must not yield an event in the past.
+            time=self._clock.now if self._clock is not None else Instant.Epoch,
             event_type="cache_warm",
             target=self,
             context={"action": "warm_next"},
